@@ -369,6 +369,32 @@ fn long_mixed_history(r: &mut Rng, nops: usize, lat: bool) -> (Hist, Vec<(usize,
     (h, cps, phases)
 }
 
+/// histories in which `rebalance` is ALSO called with updates pending (no `refit` before it): the documentation promises
+/// nothing about the boxes then, but the structure must stay valid whatever the flags and the dirty list
+/// (`rebalance_preserves_inv` holds for every call); compared bit for bit with the model, structural oracle
+fn pending_rebalance_history(r: &mut Rng, maxops: usize, lat: bool) -> (String, String) {
+    let nids = *r.pick(&[6usize, 17, 40, 64]);
+    let fam = r.below(6);
+    let nops = 8 + r.below(maxops as u64) as usize;
+    let mut h = Hist::new(nids);
+    let bx = |r: &mut Rng| { let f = if fam == 5 { r.below(5) } else { fam }; gen_box(r, f, lat) };
+    let grow = r.below(nops as u64 / 2 + 1) as usize;
+    while h.ops.len() < nops {
+        let live: Vec<usize> = (0..nids).filter(|i| h.live[*i]).collect();
+        let c = r.below(100);
+        if h.ops.len() < grow || c < 40 { let id = r.below(nids as u64) as usize; let b = bx(r); h.ins(id, b); }
+        else if c < 55 && !live.is_empty() { let id = *r.pick(&live); let b = moved(r, &h.boxes[id].clone(), lat); h.ins(id, b); }
+        else if c < 72 { let id = r.below(nids as u64) as usize; h.rem(id); }
+        else if c < 84 { let m = gen_margin(r, lat); h.rebalance(m); }            // pending updates
+        else if c < 94 { let m = gen_margin(r, lat); h.refit(m); if r.bool() { h.rebalance(m); } }
+        else { let n = r.below(nids as u64 + 1) as usize;
+               let items: Vec<(usize, Aabb)> = (0..n).map(|i| ((i * 5) % nids, bx(r))).collect::<std::collections::BTreeMap<usize, Aabb>>().into_iter().collect();
+               h.rebuild(&items, 0.0); }
+    }
+    let m = gen_margin(r, lat); h.refit(m);
+    h.finish()
+}
+
 fn gen_mix(r: &mut Rng, thorough: bool, it: usize) -> (String, String) {
     let lat = it % 2 == 0;
     let nops = if thorough { 200 + r.below(120) as usize } else { 50 + r.below(50) as usize };
@@ -383,6 +409,9 @@ pub fn gen(r: &mut Rng, thorough: bool) -> Vec<(String, String)> {
     // long mixed histories with interleaved queries and a shared (stale) workspace
     let nm = if thorough { 60 } else { 24 };
     for it in 0..nm { v.push(gen_mix(r, thorough, it)); }
+    // rebalance with pending updates (structure only)
+    let np = if thorough { 200 } else { 40 };
+    for it in 0..np { v.push(pending_rebalance_history(r, if thorough { 150 } else { 50 }, it % 2 == 0)); }
     // the code's own validator after every operation of every history family
     let nt = if thorough { 300 } else { 90 };
     for it in 0..nt {
